@@ -16,27 +16,81 @@ Proof. exact source_facts. Qed.
 Print Assumptions C34_source_facts.
 
 (* For EVERY scope provider (any function of the reference and of the history of provider
-   calls: every postponement schedule), every number of models and every list of references
-   per model: if the load succeeds, the _pos_crossref_list of each model
+   calls: every postponement schedule), every builtins table (bi x = the name of x is in
+   metamodel.builtins with a matching class), every number of models under construction and
+   every list of references per model: if the load succeeds, the _pos_crossref_list of EACH
+   model
    - is sorted by ref_pos_start,
-   - consists of exactly one entry per reference of that model (xts pairs the model's
-     references, in order, with targets; the list is a permutation of their entries),
+   - has exactly one entry for each reference the provider resolved to a model object (xts) and
+     none for the references resolved through the builtins fallback (bs); xts and bs together
+     are all the references of the model,
    - each entry (mk_entry) carries the start and end of the reference text and the file,
      start and end of a target the provider answered for that very reference. *)
-Theorem C34_refs : forall (ans : provider) models outs,
-  load ans models = Ok outs ->
+Theorem C34_refs : forall (ans : provider) (bi : cref -> bool) models outs,
+  load ans bi models = Ok outs ->
+  Forall2 (fun rs es =>
+             StronglySorted (fun a b => (e_start a <= e_start b)%N) es /\
+             exists xts bs,
+               Permutation rs (map fst xts ++ bs) /\
+               Forall (fun xt => exists h, ans (fst xt) h = Resolved (snd xt)) xts /\
+               Forall (fun b => bi b = true /\ exists h, ans b h = NotFound) bs /\
+               Permutation es (map mk_entry xts)) models outs.
+Proof. exact load_listed. Qed.
+Print Assumptions C34_refs.
+
+(* Without builtins (the default) every reference of the model has its entry. *)
+Theorem C34_refs_no_builtins : forall (ans : provider) (bi : cref -> bool) models outs,
+  (forall x, bi x = false) ->
+  load ans bi models = Ok outs ->
   Forall2 (fun rs es =>
              StronglySorted (fun a b => (e_start a <= e_start b)%N) es /\
              exists xts, map fst xts = rs /\
                          Forall (fun xt => exists h, ans (fst xt) h = Resolved (snd xt)) xts /\
                          Permutation es (map mk_entry xts)) models outs.
-Proof. exact load_listed. Qed.
-Print Assumptions C34_refs.
+Proof. exact load_listed_no_builtins. Qed.
+Print Assumptions C34_refs_no_builtins.
+
+(* Multi-model loads: at the end of the main load the list of EVERY model taking part in it
+   (main and imported ones) is sorted, not only the main model's. *)
+Theorem C34_all_models_sorted : forall (ans : provider) (bi : cref -> bool) models outs,
+  load ans bi models = Ok outs ->
+  length outs = length models /\
+  Forall (StronglySorted (fun a b => (e_start a <= e_start b)%N)) outs.
+Proof. exact load_all_sorted. Qed.
+Print Assumptions C34_all_models_sorted.
+
+(* Models that were completely loaded earlier (global repository) are not under construction:
+   they keep their list unchanged, the models loaded now satisfy C34_refs, and if the old lists
+   were sorted every model reachable from the main model has a sorted list afterwards. *)
+Theorem C34_repo : forall (ans : provider) (bi : cref -> bool) gms outs,
+  load_repo ans bi gms = Ok outs ->
+  Forall2 (fun g es => match g with
+                       | Done es0 => es = es0
+                       | Fresh rs =>
+                           StronglySorted (fun a b => (e_start a <= e_start b)%N) es /\
+                           exists xts bs,
+                             Permutation rs (map fst xts ++ bs) /\
+                             Forall (fun xt => exists h, ans (fst xt) h = Resolved (snd xt)) xts /\
+                             Forall (fun b => bi b = true /\ exists h, ans b h = NotFound) bs /\
+                             Permutation es (map mk_entry xts)
+                       end) gms outs.
+Proof. exact load_repo_listed. Qed.
+Print Assumptions C34_repo.
+
+Theorem C34_repo_all_sorted : forall (ans : provider) (bi : cref -> bool) gms outs,
+  Forall (fun g => match g with
+                   | Done es => StronglySorted (fun a b => (e_start a <= e_start b)%N) es
+                   | Fresh _ => True end) gms ->
+  load_repo ans bi gms = Ok outs ->
+  Forall (StronglySorted (fun a b => (e_start a <= e_start b)%N)) outs.
+Proof. exact load_repo_all_sorted. Qed.
+Print Assumptions C34_repo_all_sorted.
 
 (* The fuel of [load] (number of references + 1) always suffices: the hypothesis [= Ok] of the
    theorems excludes only failed loads (unknown object / unresolvable), never a fuel artefact. *)
-Theorem C34_load_terminates : forall (ans : provider) models, load ans models <> OutOfFuel.
-Proof. exact load_terminates. Qed.
+Theorem C34_load_terminates : forall (ans : provider) (bi : cref -> bool) gms,
+  load_repo ans bi gms <> OutOfFuel /\ forall models, load ans bi models <> OutOfFuel.
+Proof. exact terminates_both. Qed.
 Print Assumptions C34_load_terminates.
 
 (* What an entry made for reference x and target t contains. *)
@@ -48,14 +102,16 @@ Proof. intros x t. repeat split; reflexivity. Qed.
 Print Assumptions C34_entry_exact.
 
 (* When the reference texts of each model are at increasing positions (what the parser
-   delivers, see C34_tree_refs_increasing), the list is exactly the list of the model's
-   references in text order, whatever the schedule was. *)
-Theorem C34_refs_in_text_order : forall (ans : provider) models outs,
+   delivers, see C34_tree_refs_increasing), the list is exactly the entries of the
+   provider-resolved references in text order, whatever the schedule was. *)
+Theorem C34_refs_in_text_order : forall (ans : provider) (bi : cref -> bool) models outs,
   Forall (fun rs => StronglySorted N.lt (map cstart rs)) models ->
-  load ans models = Ok outs ->
-  Forall2 (fun rs es => exists xts, map fst xts = rs /\
-                          Forall (fun xt => exists h, ans (fst xt) h = Resolved (snd xt)) xts /\
-                          es = map mk_entry xts) models outs.
+  load ans bi models = Ok outs ->
+  Forall2 (fun rs es => exists xts bs,
+             es = map mk_entry xts /\ Permutation rs (map fst xts ++ bs) /\
+             Forall (fun xt => exists h, ans (fst xt) h = Resolved (snd xt)) xts /\
+             Forall (fun b => bi b = true /\ exists h, ans b h = NotFound) bs /\
+             StronglySorted N.lt (map cstart (map fst xts))) models outs.
 Proof. exact load_listed_in_order. Qed.
 Print Assumptions C34_refs_in_text_order.
 
@@ -74,16 +130,29 @@ Theorem C34_tree_refs_increasing : forall t, wfb t = true -> StronglySorted N.lt
 Proof. exact tree_refs_increasing. Qed.
 Print Assumptions C34_tree_refs_increasing.
 
-(* Whole load of a set of files, any provider: the list of every model is, entry by entry and
-   in document order, the list of that model's reference nodes. *)
-Theorem C34_load_trees : forall (ans : provider) trees outs,
+(* Whole load of a set of files, any provider, no builtins: the list of every model is, entry
+   by entry and in document order, the list of that model's reference nodes. *)
+Theorem C34_load_trees : forall (ans : provider) (bi : cref -> bool) trees outs,
+  (forall x, bi x = false) ->
   Forall (fun t => wfb t = true) trees ->
-  load_trees ans trees = Ok outs ->
+  load_trees ans bi trees = Ok outs ->
   Forall2 (fun t es => exists xts, map fst xts = refs_pre t /\
                          Forall (fun xt => exists h, ans (fst xt) h = Resolved (snd xt)) xts /\
                          es = map mk_entry xts) trees outs.
-Proof. exact load_trees_in_order. Qed.
+Proof. exact load_trees_exactly. Qed.
 Print Assumptions C34_load_trees.
+
+(* With builtins: the entries of the provider-resolved reference nodes, in document order. *)
+Theorem C34_load_trees_builtins : forall (ans : provider) (bi : cref -> bool) trees outs,
+  Forall (fun t => wfb t = true) trees ->
+  load_trees ans bi trees = Ok outs ->
+  Forall2 (fun t es => exists xts bs,
+             es = map mk_entry xts /\ Permutation (refs_pre t) (map fst xts ++ bs) /\
+             Forall (fun xt => exists h, ans (fst xt) h = Resolved (snd xt)) xts /\
+             Forall (fun b => bi b = true /\ exists h, ans b h = NotFound) bs /\
+             StronglySorted N.lt (map cstart (map fst xts))) trees outs.
+Proof. exact load_trees_in_order. Qed.
+Print Assumptions C34_load_trees_builtins.
 
 (* ---- the position map (_pos_rule_dict), for every tree ---- *)
 
@@ -137,9 +206,26 @@ Definition demo_tbl : list (nat * (nat * option target)) :=
     (1, (1, Some {| tfile := 1; tstart := 3%N; tend := 9%N |}));
     (2, (0, Some {| tfile := 0; tstart := 0%N; tend := 5%N |})) ]%nat.
 Example C34_refs_nonvacuous :
-  match load (table_ans demo_tbl) [demo_refs] with
+  match load (table_ans demo_tbl) (fun _ => false) [demo_refs] with
   | Ok [es] => map e_ref es = [0; 1; 2] /\ map e_end es = [13; 16; 25]%N /\ map e_file es = [0; 1; 0]
   | _ => False
   end.
 Proof. vm_compute. repeat split. Qed.
 Print Assumptions C34_refs_nonvacuous.
+
+(* builtins and repository: reference 1 is not found by the provider (after one postponement) and
+   is a builtin name: it gets no entry; the second model was loaded earlier and keeps its list *)
+Definition demo_tbl2 : list (nat * (nat * option target)) :=
+  [ (0, (1, Some {| tfile := 1; tstart := 0%N; tend := 5%N |}));
+    (1, (1, None));
+    (2, (0, Some {| tfile := 0; tstart := 0%N; tend := 5%N |})) ]%nat.
+Definition demo_old : list entry :=
+  [ {| e_ref := 9; e_name := [99]%N; e_start := 4%N; e_end := 5%N; e_file := 1; e_dstart := 0%N; e_dend := 3%N |} ].
+Example C34_repo_nonvacuous :
+  match load_repo (table_ans demo_tbl2) (fun x => Nat.eqb (cid x) 1) [Fresh demo_refs; Done demo_old] with
+  | Ok [es; old] => map e_ref es = [0; 2] /\ old = demo_old
+  | _ => False
+  end /\
+  load (table_ans demo_tbl2) (fun _ => false) [demo_refs] = UnknownObject.
+Proof. vm_compute. repeat split. Qed.
+Print Assumptions C34_repo_nonvacuous.
